@@ -164,7 +164,7 @@ def corner_poly(phis):
 def corner_phases(rng, n, style=None):
     """phase list of length n+1 whose Wx corner is a generic / special polynomial"""
     if style is None:
-        style = str(rng.choice(["generic", "generic", "real", "imag", "double", "smallends"]))
+        style = str(rng.choice(["generic", "generic", "real", "imag", "double", "smallends", "chebyshev", "nearly-real", "mirror"]))
     ph = rng.uniform(-math.pi, math.pi, size=n + 1)
     if style == "real":          # P real: symmetric phases with zero ends... use all phases in {0, pi/2 multiples}+noise-free pattern
         ph = rng.uniform(-1.2, 1.2, size=n + 1)
@@ -180,6 +180,22 @@ def corner_phases(rng, n, style=None):
     elif style == "smallends":
         ph[0] *= 0.01
         ph[-1] *= 0.01
+    elif style == "chebyshev":   # all interior phases zero: P = exp(i(phi_0 + phi_n)) T_n, every root of 1 - |P|^2 double
+        ph = np.zeros(n + 1)
+        ph[0], ph[-1] = rng.uniform(-math.pi, math.pi, size=2) * (rng.random(2) < 0.7)
+    elif style == "nearly-real":  # real corner plus imaginary parts far below 1 (1e-12 .. 1e-5): they are part of the request
+        ph = rng.uniform(-1.2, 1.2, size=n + 1)
+        ph = (ph + ph[::-1]) / 2
+        if rng.random() < 0.5:
+            ph = ph * 0.0
+        mag = 10.0 ** float(rng.uniform(-8.7, -6.3) if rng.random() < 0.6 else rng.uniform(-12, -5))
+        ph = ph + rng.normal(size=n + 1) * mag * (rng.random(n + 1) < 0.6)
+        if rng.random() < 0.5:
+            ph[0] += 10.0 ** float(rng.uniform(-9, -6))
+    elif style == "mirror":      # mirror-symmetric interior, free ends: tied roots
+        inner = rng.uniform(-1.3, 1.3, size=max(n - 1, 0))
+        inner = (inner + inner[::-1]) / 2
+        ph = np.r_[rng.uniform(-math.pi, math.pi), inner, rng.uniform(-math.pi, math.pi)] if n >= 1 else ph
     return [float(x) for x in ph], style
 
 
